@@ -36,8 +36,9 @@ Section FirstTrue.
     match l with
     | [] => ([], false)
     | s :: l' =>
-        if snd (t s) then (fst (t s) :: l', true)
-        else (fst (t s) :: fst (first_true l'), snd (first_true l'))
+        let p := t s in
+        if snd p then (fst p :: l', true)
+        else let q := first_true l' in (fst p :: fst q, snd q)
     end.
 End FirstTrue.
 
@@ -135,14 +136,14 @@ Section ED.
   Fixpoint run_fix (fuel : nat) (x : X) : option X :=
     match fuel with
     | O => None
-    | Datatypes.S f => if snd (t x) then run_fix f (fst (t x)) else Some (fst (t x))
+    | Datatypes.S f => let p := t x in if snd p then run_fix f (fst p) else Some (fst p)
     end.
   (* while not x.bounds().definitive() and x.tighten_bounds(): pass *)
   Fixpoint run_def (fuel : nat) (x : X) : option X :=
     if zdefb (b x) then Some x else
     match fuel with
     | O => None
-    | Datatypes.S f => if snd (t x) then run_def f (fst (t x)) else Some (fst (t x))
+    | Datatypes.S f => let p := t x in if snd p then run_def f (fst p) else Some (fst p)
     end.
   Definition fix_fuel (x : X) : nat := Datatypes.S (Z.to_nat (width (b x))).
 
@@ -200,8 +201,9 @@ Section ED.
       match kid_at s1 (m - 1) (n - 1) with
       | None => (set_err s1, false)
       | Some x =>
-          let x1 := if zdefb (b x) then x else fst (t x) in
-          let ret := if zdefb (b x) then false else snd (t x) in
+          let px := t x in
+          let x1 := if zdefb (b x) then x else fst px in
+          let ret := if zdefb (b x) then false else snd px in
           match run_def (fix_fuel x1) x1 with
           | None => (set_err (set_kid s1 (m - 1) (n - 1) x1), ret)
           | Some x2 =>
@@ -282,11 +284,9 @@ Fixpoint tigU (d : nat) (s : st) : st * bool :=
   | S d' =>
       match s with
       | SConst c => (s, false)
-      | SSum l => (SSum (fst (first_true (tigU d') l)), snd (first_true (tigU d') l))
-      | SFixed l x =>
-          (SFixed (fst (fst (fixed_tig bndU (tigU d') (l, x)))) (snd (fst (fixed_tig bndU (tigU d') (l, x)))),
-           snd (fixed_tig bndU (tigU d') (l, x)))
-      | SED e => (SED (fst (ed_tig bndU (tigU d') e)), snd (ed_tig bndU (tigU d') e))
+      | SSum l => let p := first_true (tigU d') l in (SSum (fst p), snd p)
+      | SFixed l x => let p := fixed_tig bndU (tigU d') (l, x) in (SFixed (fst (fst p)) (snd (fst p)), snd p)
+      | SED e => let p := ed_tig bndU (tigU d') e in (SED (fst p), snd p)
       end
   end.
 
